@@ -98,12 +98,13 @@ class CP(object):
         self.alphabet = alphabet
 
     def repertoire(self, sub):
-        """cluster -> witness byte sequence, for the forward map with/without glyph substitutes."""
+        """cluster -> (witness byte sequence, number of byte sequences listed for it), for the forward map with/without substitutes."""
         rep = {}
         for k, u in self.rel.items():
             if len(k) == 1 and 32 <= k[0] <= 126 and not sub:
                 u = chr(k[0])
-            rep.setdefault(u, k)
+            w, n = rep.get(u, (k, 0))
+            rep[u] = (w, n + 1)
         return rep
 
 
@@ -168,8 +169,12 @@ def roundtrips(cp, ctx, events, all_pairs_nobox):
                 r = c.unicode_to_bytes(u)
                 events.append({'o': 'b', 'c': cp.idx, 'box': box, 'sub': sub, 'q': list(q), 'u': cps(u), 'r': list(r)})
             rep = cp.repertoire(sub)
-            for un, w in rep.items():
+            for un, (w, npre) in rep.items():
                 if not exhaustive and len(w) > 1:
+                    continue
+                # quick: a 2-byte cluster with a single preimage q is already covered by the b event of q, which makes the
+                # same two calls (decode(q) = u, encode(u) = q); the clusters listed more than once are all converted
+                if not full and len(w) > 1 and npre == 1:
                     continue
                 r = c.unicode_to_bytes(un)
                 v = c.bytes_to_unicode(r, use_substitutes=sub)
@@ -304,7 +309,7 @@ def run(ctx):
         if cp1:
             ctx.sample(dict(ev[300], codepage=cp1.name))
             ctx.sample(dict(ev[-1], codepage=cp1.name))
-    if not only and (kinds['c'] == 0 or kinds['u'] < 10000 or kinds['b'] < 100000):
+    if not only and (kinds['c'] == 0 or kinds['u'] < 5000 or kinds['b'] < 100000):
         raise core.MachineryError('vacuous: too few events %r' % kinds)
     ctx.assumptions += ['clusters are compared in NFC form (unicodedata.normalize), as the code stores them',
                         'the relation of a codepage is the harness\'s own reading of the shipped .ucp file',
